@@ -58,6 +58,8 @@ Fit(t, n) ==
 \* Conversion on assignment / parameter passing / READ.
 Cast(t, x) ==
   IF IsErr(x) THEN x
+  ELSE IF t = "U" THEN (IF x.t = "U" THEN x ELSE TypeMismatch)
+  ELSE IF x.t = "U" THEN TypeMismatch
   ELSE IF t = "$" THEN (IF IsStr(x) THEN x ELSE TypeMismatch)
   ELSE IF IsStr(x) THEN TypeMismatch
   ELSE Fit(t, x.v)
